@@ -37,6 +37,7 @@ def shards(tier):
     else:
         out.append({"name": "pairs0", "examples": 300, "pairs": True})
     out.append({"name": "grid", "kind": "enum"})
+    out += [{"name": f"fuzz{i}", "kind": "fuzz", "runs": 400 if q else 6000, "pairs": i == 1} for i in range(1 if q else 2)]
     return out
 
 
